@@ -377,14 +377,13 @@ def cloud_log(steps, upto):
 
 
 K3_TAG = "c10-bind-on-other-node-while-assigned"
-K3B_TAG = "c10-multi-ip-key-resync-or-release"
 
 
 def mon_c10(h, o, nwf, keys):
     """C10 monitors on the implementation's provider log and dumps.  Shapes of the two recorded findings are computed from
     the failing step itself: K3 = a bind on node n while an IP of the pod's key is still assigned to another node at the
-    provider; K3b = a resync item / API release with a provider for a key holding two or more IPs.  Once such a step has
-    happened the provider holds a stale assignment, so later failures of the same history carry the tag as well."""
+    provider.  Once such a step has happened the provider holds a stale assignment, so later failures of the same history
+    carry the tag as well.  (K3b - resync item / API release of a key holding several IPs - is repaired: 5359786.)"""
     out = []
     if not h["provider"]:
         return out
@@ -406,10 +405,6 @@ def mon_c10(h, o, nwf, keys):
                 sp = specs.get((op["ns"], op["name"], lp[0][2])) if lp else None
                 if sp and any(e[1] == pod_key(sp) and cloud.get(e[0], op["node"]) != op["node"] for e in prev["alloc"]):
                     tags = sorted(set(tags + [K3_TAG]))
-            if k in ("resync", "api_release", "resync_item") and st.get("ip"):
-                ent = [e for e in prev["alloc"] if e[0] == ipamgen.s2ip(st["ip"])]
-                if ent and len([e for e in prev["alloc"] if e[1] == ent[0][1]]) >= 2:
-                    tags = sorted(set(tags + [K3B_TAG]))
         out.append(("(mon_cloud_live %s)" % cwdump(d), si, "cloud_live", list(tags)))
         if prev is not None:
             out.append(("(mon_freed_unassigned %s %s)" % (cwdump(prev), cwdump(d)), si, "freed_unassigned", list(tags)))
